@@ -1,0 +1,32 @@
+//go:build verif
+
+package kfake
+
+// Verification contracts (comments only), read by /verif/govc. Compiled only with -tags verif; no code.
+
+// ---- C29: idempotent sequence window. Sequences wrap from MaxInt32 to 0, i.e. modulo 2^31 ----
+
+//@ spec seqwrap(s int32, n int32) int32 = int32((int64(s) + int64(n)) % (1 << 31))
+
+//@ func (s *pidwindow) pushAndValidate(epoch int16, firstSeq int32, numRecs int32, baseOffset int64) (ok bool, dup bool, dupOffset int64)
+//@   mode bv
+//@   prop C29
+//@   requires s != nil ==> s.count <= 5 && s.at < 5
+//@   requires 0 <= firstSeq && 0 <= numRecs
+//@   nopanic
+//@   ghost var next int32 = seqwrap(firstSeq, numRecs)
+//@   ghost var reset bool = !s.seen || epoch != s.epoch
+//@   ghost var isDup bool = exists i in 0..5 :: i < int(s.count) && s.entries[i].firstSeq == firstSeq && s.entries[i].nextSeq == next
+//@   loop 0 invariant 0 <= int(i) && int(i) < int(s.count)
+//@   loop 0 invariant forall j in 0..int(i) :: !(s.entries[j].firstSeq == firstSeq && s.entries[j].nextSeq == next)
+//@   ensures s == nil ==> ok && !dup
+//@   ensures s != nil && reset && old(s.seen) && firstSeq != 0 ==> !ok && !dup
+//@   ensures s != nil && reset && !(old(s.seen) && firstSeq != 0) ==> ok && !dup && s.seen && s.epoch == epoch && s.nextSeq == next && s.count == 1 && s.at == 1
+//@   ensures s != nil && reset && !(old(s.seen) && firstSeq != 0) ==> s.entries[0].firstSeq == firstSeq && s.entries[0].nextSeq == next && s.entries[0].offset == baseOffset
+//@   ensures s != nil && !reset && isDup ==> ok && dup
+//@   ensures s != nil && !reset && isDup ==> exists i in 0..5 :: i < int(old(s.count)) && old(s.entries[i].firstSeq) == firstSeq && old(s.entries[i].nextSeq) == next && dupOffset == old(s.entries[i].offset)
+//@   ensures s != nil && !reset && !isDup && firstSeq == old(s.nextSeq) ==> ok && !dup && s.nextSeq == next
+//@   ensures s != nil && !reset && !isDup && firstSeq == old(s.nextSeq) ==> s.entries[int(old(s.at))].firstSeq == firstSeq && s.entries[int(old(s.at))].nextSeq == next && s.entries[int(old(s.at))].offset == baseOffset
+//@   ensures s != nil && !reset && !isDup && firstSeq != old(s.nextSeq) ==> !ok && !dup
+//@   ensures s != nil && (!ok || dup) ==> s.nextSeq == old(s.nextSeq) && s.seen == old(s.seen) && s.epoch == old(s.epoch) && s.count == old(s.count) && s.at == old(s.at)
+//@   ensures s != nil ==> s.count <= 5 && s.at < 5
